@@ -165,6 +165,13 @@ SetTypes  == { TColl(c, t) : c \in {"set", "fset"}, t \in HashableLeaves \cup {T
 MapTypes  == { TMap(TAnnot(TStr, << <<"pattern", "pa">> >>), TInt), TMap(TLit(<<DStr("a"), DStr("b")>>), TInt),
                TMap(TEnum("ES"), TInt), TAnnot(TMap(TStr, TInt), << <<"min_props", 1>>, <<"max_props", 1>> >>) }
 ObjTypes  == { TObj(c) : c \in ObjClasses }
+\* unions with an alternative marked Unsupported: `alts` are the alternatives apischema sees (all the
+\* semantics read them only), `uns` the <<position in the declaration, type>> of the ignored ones,
+\* read by the bridge alone: Union[Annotated[str, Unsupported], None, int] ...
+UnsUnions == { [k |-> "union", alts |-> <<TNone, TInt>>, uns |-> << <<1, TStr>> >>],
+               [k |-> "union", alts |-> <<TInt, TNone>>, uns |-> << <<2, TStr>> >>],
+               [k |-> "union", alts |-> <<TInt, TNone>>, uns |-> << <<1, TObj("P1")>> >>],
+               [k |-> "union", alts |-> <<TInt, TStr>>, uns |-> << <<1, TObj("P1")>>, <<4, TNone>> >>] }
 UnionTypes == { TUnion(<<TInt, TFloat>>), TUnion(<<TFloat, TInt>>), TUnion(<<TInt, TFloat, TBool>>),
                 TUnion(<<TStr, TLit(<<DStr("a")>>)>>), TUnion(<<TLit(<<DStr("a")>>), TStr>>),
                 TUnion(<<TObj("P1"), TObj("P2")>>), TUnion(<<TObj("P2"), TObj("P1")>>),
@@ -172,9 +179,13 @@ UnionTypes == { TUnion(<<TInt, TFloat>>), TUnion(<<TFloat, TInt>>), TUnion(<<TIn
                 TUnion(<<TEnum("ES"), TStr, TNone>>), TUnion(<<TFloat, TStr>>),
                 TUnion(<<TUnion(<<TInt, TStr>>), TNone>>),
                 TUnion(<<TAnnot(TInt, << <<"min", 2>> >>), TAnnot(TInt, << <<"max", -2>> >>)>>) }
+              \cup UnsUnions
+
 
 DUnionTypes == { TDUnion(<<TObj("P1"), TObj("P2")>>, "kind", << <<"P1">>, <<"P2">> >>, "default"),
                  TDUnion(<<TObj("P2"), TObj("P3")>>, "kind", << <<"x">>, <<"y", "zz">> >>, "explicit"),
+                 \* a PARTIAL explicit mapping: P2 is keyed "x" only (its implicit name is overridden), P1 stays implicit
+                 TDUnion(<<TObj("P1"), TObj("P2")>>, "kind", << <<"P1">>, <<"x">> >>, "partial"),
                  TDUnion(<<TObj("P1"), TObj("PA"), TObj("FL")>>, "type", << <<"P1">>, <<"PA">>, <<"FL">> >>, "default"),
                  \* the discriminator is a declared (aliased) Literal field of the alternatives
                  TDUnion(<<TObj("CAT"), TObj("DOG"), TObj("P1")>>, "type", << <<"cat">>, <<"dog", "d">>, <<"P1">> >>, "default") }
@@ -278,6 +289,8 @@ Cand(ctx, T, n) ==
     [] T.k = "dunion"  ->
          LET al == Ali(ctx, T.alias)
              tags == UNION {{DStr(T.keys[i][j]) : j \in DOMAIN T.keys[i]} : i \in DOMAIN T.keys} \cup {DStr("zz"), DInt(1)}
+                     \* the implicit names, whether or not an explicit mapping overrides them
+                     \cup {DStr(T.alts[i].cls) : i \in {j \in DOMAIN T.alts : T.alts[j].k = "obj"}}
              base == UNION {PickSome(Cand(ctx, T.alts[i], IF n > 0 THEN n - 1 ELSE 0), 12) : i \in DOMAIN T.alts}
          IN SmallAtoms \cup {x \in base : x.k = "obj"}
               \cup {DObj(SelectSeq(x.o, LAMBDA p : p[1] # al) \o << <<al, tag>> >>) : x \in {y \in base : y.k = "obj"}, tag \in tags}
